@@ -209,51 +209,93 @@ func RunSpellings(tier, rule string) int {
 		}
 	}
 	sort.Strings(lines)
-	for _, ln := range lines {
-		var v variant
-		if err := json.Unmarshal([]byte(ln), &v); err != nil {
-			return infra(prop, err)
-		}
-		e := byShape[v.Shape]
-		if e == nil {
-			e = &eqEvent{Class: fmt.Sprintf("shape %d", v.Shape)}
-			byShape[v.Shape] = e
-			shapes = append(shapes, v.Shape)
-		}
-		sort.Strings(v.Sw)
-		val := spelled(v.Doc, rename)
-		jb, _ := json.MarshalIndent(val, "", "  ")
-		yb, _ := yaml.Marshal(val)
-		block := reQuotedKey.ReplaceAllString(string(yb), "$1:")
-		flow := reQuotedKey.ReplaceAllString(string(jb), "$1:") // JSON text is flow-style YAML; unquote the special keys
-		sw := "{" + strings.Join(v.Sw, ",") + "}"
-		// the canonical JSON spelling (no switch) is variant 1 of its class
-		add := func(desc, name, text string, first bool) {
-			nv := &eqVariant{Desc: desc, files: map[string]string{name: text}, entry: []string{name}, cfg: gcfg}
-			if first {
-				e.Variants = append([]*eqVariant{nv}, e.Variants...)
-			} else {
-				e.Variants = append(e.Variants, nv)
+	// Decorations: every class of spellings is run as enumerated and again (a) with a `$schema` keyword of an old and
+	// of a current draft at the root, (b) for the shapes that carry an id, under --schema-package / --schema-output /
+	// --schema-root-type mappings that name the id exactly, and (c) with an id ending in "#" that the mapping names
+	// without it. All spellings of one class must still produce identical output (whatever that output is).
+	type decor struct {
+		name, schemaKw string
+		mapID          func(id string) (docID, flagID string)
+	}
+	decors := []decor{{name: ""},
+		{name: " + $schema draft-07", schemaKw: "http://json-schema.org/draft-07/schema#"},
+		{name: " + $schema 2020-12", schemaKw: "https://json-schema.org/draft/2020-12/schema"},
+		{name: " + mappings naming the id", mapID: func(id string) (string, string) { return id, id }},
+		{name: " + id ending in #, mappings naming it without", mapID: func(id string) (string, string) { return id + "#", id }},
+		{name: " + mappings naming the id with a trailing #", mapID: func(id string) (string, string) { return id, id + "#" }},
+	}
+	for di, dc := range decors {
+		for _, ln := range lines {
+			var v variant
+			if err := json.Unmarshal([]byte(ln), &v); err != nil {
+				return infra(prop, err)
 			}
-		}
-		add("json "+sw, "root.json", string(jb), len(v.Sw) == 0)
-		add("yaml-block "+sw, "root.yaml", block, false)
-		add("yaml-flow "+sw, "root.yaml", flow, false)
-		if esc := escapedNonASCII(flow); esc != flow { // non-ASCII text written as \uXXXX escapes
-			add("json, non-ASCII as escapes "+sw, "root.json", escapedNonASCII(string(jb)), false)
-			add("yaml-flow, non-ASCII as escapes "+sw, "root.yaml", esc, false)
-		}
-		if len(v.Sw) <= 1 { // the same files reached through an extension-less name (--resolve-extension)
-			for _, x := range []struct{ desc, name, text string }{{"json via extension-less name ", "root.json", string(jb)}, {"yaml via extension-less name ", "root.yaml", block}} {
-				nv := &eqVariant{Desc: x.desc + sw, files: map[string]string{x.name: x.text}, entry: []string{"root"}, cfg: gcfg}
-				e.Variants = append(e.Variants, nv)
+			key := v.Shape + 100*di
+			e := byShape[key]
+			if e == nil {
+				e = &eqEvent{Class: fmt.Sprintf("shape %d%s", v.Shape, dc.name)}
+				byShape[key] = e
+				shapes = append(shapes, key)
+			}
+			sort.Strings(v.Sw)
+			val := spelled(v.Doc, rename)
+			gcfg := gcfg
+			if m, ok := val.(map[string]any); ok {
+				if dc.schemaKw != "" {
+					m["$schema"] = dc.schemaKw
+				}
+				if dc.mapID != nil {
+					id, _ := m["$id"].(string)
+					if id == "" {
+						id, _ = m["id"].(string)
+					}
+					if id == "" {
+						continue // a shape without an id has nothing a mapping could name
+					}
+					docID, flagID := dc.mapID(id)
+					for _, k := range []string{"$id", "id"} {
+						if _, has := m[k]; has {
+							m[k] = docID
+						}
+					}
+					gcfg.SchemaMappings = []work.Mapping{{SchemaID: flagID, PackageName: "example.com/mapped/pkg", RootType: "MappedRoot", OutputName: "mapped.go"}}
+				}
+			}
+			jb, _ := json.MarshalIndent(val, "", "  ")
+			yb, _ := yaml.Marshal(val)
+			block := reQuotedKey.ReplaceAllString(string(yb), "$1:")
+			flow := reQuotedKey.ReplaceAllString(string(jb), "$1:") // JSON text is flow-style YAML; unquote the special keys
+			sw := "{" + strings.Join(v.Sw, ",") + "}"
+			// the canonical JSON spelling (no switch) is variant 1 of its class
+			add := func(desc, name, text string, first bool) {
+				nv := &eqVariant{Desc: desc, files: map[string]string{name: text}, entry: []string{name}, cfg: gcfg}
+				if first {
+					e.Variants = append([]*eqVariant{nv}, e.Variants...)
+				} else {
+					e.Variants = append(e.Variants, nv)
+				}
+			}
+			add("json "+sw, "root.json", string(jb), len(v.Sw) == 0)
+			add("yaml-block "+sw, "root.yaml", block, false)
+			add("yaml-flow "+sw, "root.yaml", flow, false)
+			if esc := escapedNonASCII(flow); esc != flow { // non-ASCII text written as \uXXXX escapes
+				add("json, non-ASCII as escapes "+sw, "root.json", escapedNonASCII(string(jb)), false)
+				add("yaml-flow, non-ASCII as escapes "+sw, "root.yaml", esc, false)
+			}
+			if len(v.Sw) <= 1 { // the same files reached through an extension-less name (--resolve-extension)
+				for _, x := range []struct{ desc, name, text string }{{"json via extension-less name ", "root.json", string(jb)}, {"yaml via extension-less name ", "root.yaml", block}} {
+					nv := &eqVariant{Desc: x.desc + sw, files: map[string]string{x.name: x.text}, entry: []string{"root"}, cfg: gcfg}
+					e.Variants = append(e.Variants, nv)
+				}
 			}
 		}
 	}
 	sort.Ints(shapes)
 	var evs []*eqEvent
 	for _, s := range shapes {
-		evs = append(evs, byShape[s])
+		if len(byShape[s].Variants) > 1 { // a shape without an id has no mapping classes
+			evs = append(evs, byShape[s])
+		}
 	}
 	bevs, bmc, _, err := borrowedSpellingClasses(sc, devs, tier, rand.New(rand.NewSource(seed+13)))
 	if err != nil {
